@@ -1074,7 +1074,16 @@ impl<'p> World<'p> {
         let fk = fk.unwrap_or(trec.footer.kind());
 
         // ---- ideal functionality: is what arrived exactly something that was sealed?
-        let key_raw = be.key_raw(krec.kind, &kh).ok();
+        // the identity of the key the verifier holds: derived without the library where possible
+        // (canonical encoding of the bytes it was given), else the stored truth of an honest key,
+        // else what the library serialises
+        let lib_raw = be.key_raw(krec.kind, &kh).ok();
+        let key_raw = krec
+            .raw
+            .as_ref()
+            .and_then(|r| canonical_key_bytes(krec.family, krec.kind, r))
+            .or_else(|| if krec.honest && krec.alt_store.is_none() { krec.raw.clone() } else { None })
+            .or(lib_raw);
         let mut authentic: Option<TokRec> = None;
         let canon = if d.text.ends_with('.') { Some(&d.text[..d.text.len() - 1]) } else { None };
         for cand_text in [Some(d.text.as_str()), canon].into_iter().flatten() {
